@@ -93,6 +93,8 @@ func (d *Data) SyncPending() bool {
 		return false
 	}
 	// Check if this data instance has any subscriptions and if so, are there messages in the channel.
+	r.RLock()
+	defer r.RUnlock()
 	for _, subs := range r.subs {
 		for _, sub := range subs {
 			if sub.Notify == d.dataUUID && len(sub.Ch) > 0 {
